@@ -38,13 +38,14 @@ def _items(rng, comps_simple, rels, base, n=None):
     if n is not None and len(combos) > n:
         combos = rng.sample(combos, n)
     for k, (rel, only, qualified) in enumerate(combos):
+        L = lambda c: list(c) if isinstance(c, (list, tuple)) else [c]      # a component: one name or a dotted name
         if qualified:
-            comps = [base + [c] for c in comps_simple]
-            deps = [(base + [a], base + [b]) for a, b in rel]
+            comps = [base + L(c) for c in comps_simple]
+            deps = [(base + L(a), base + L(b)) for a, b in rel]
             b = []
         else:
-            comps = [[c] for c in comps_simple]
-            deps = [([a], [b]) for a, b in rel]
+            comps = [L(c) for c in comps_simple]
+            deps = [(L(a), L(b)) for a, b in rel]
             b = base
         items.append({"op": "deval", "a": 0, "rid": f"D{k}", "comps": comps, "deps": deps, "only": only, "base": b})
     return items
@@ -90,6 +91,42 @@ def run(ctx):
         rels.append(sorted(rng.sample(pairs, rng.randint(0, min(len(pairs), 4)))))
         specs.append({"driver": "diagram", "world": w.json(), "items": _items(rng, comps, rels, ["r"], n=8)})
     meta["random_worlds"] = n_worlds
+    # components with dotted names relative to the base module (sub packages two or three levels below it), in trees
+    # where a package contains a sub package of its own name (mysite/mysite/...): 'with_base_module(p)' must mean
+    # exactly 'p.<component>' also for a component that itself starts with 'p.'
+    n_nested = 60 if ctx.quick else 1200
+    made = 0
+    while made < n_nested:
+        w = random_world(rng, n_modules=rng.randint(10, 26), n_imports=rng.randint(4, 45), depth=5,
+                         pool=["r", "a", "b", "r", "c", "ab", "d"])
+        base = list(rng.choice([m for m in w.modules if len(m) <= 2]))
+        below = [m[len(base):] for m in w.modules if len(m) > len(base) and list(m[:len(base)]) == base
+                 and len(m) - len(base) <= 3]
+        rng.shuffle(below)
+        comps = []
+        for c in sorted(below, key=lambda c: (c[0] != base[-1], rng.random())):     # names starting like the base first
+            if all(c[:len(o)] != o and o[:len(c)] != c for o in comps):
+                comps.append(c)
+            if len(comps) == 4:
+                break
+        if len(comps) < 2:
+            continue
+        made += 1
+        pairs = [(a, b) for a in comps for b in comps if a != b]
+        actual = set()
+        for u, v in w.imports:
+            for a in comps:
+                for b in comps:
+                    if a != b and u[:len(base) + len(a)] == tuple(base) + a and v[:len(base) + len(b)] == tuple(base) + b:
+                        actual.add((a, b))
+        rels = [sorted(actual)]
+        for _ in range(2):
+            rel = set(actual)
+            for p in rng.sample(pairs, min(len(pairs), rng.randint(1, 2))):
+                rel.symmetric_difference_update({p})
+            rels.append(sorted(rel))
+        specs.append({"driver": "diagram", "world": w.json(), "items": _items(rng, comps, rels, base, n=8)})
+    meta["worlds_with_dotted_components_below_a_base"] = n_nested
     episodes = runner.run_specs(specs, 16)
     tr = trace.validate(episodes, "Trace_Diagram.tla", "Trace_Diagram.cfg", procs=16)
     fails = attach(tr, specs, episodes)
